@@ -34,7 +34,7 @@ ASSUMPTIONS = [
     "CR-only line ends are used for files only (text-mode universal newlines); strings are given LF or CRLF",
 ]
 REQUIRED = ["channel_reads_compared", "channel_str_path", "channel_Path", "channel_file_object", "channel_StringIO", "channel_string",
-            "channel_cases_multibyte_char_at_window_boundary", "codec_utf-8-sig", "codec_utf-8", "codec_utf-16", "codec_utf-16-le", "codec_utf-16-be", "codec_latin-1", "codec_cp1252",
+            "channel_cases_multibyte_char_at_window_boundary", "channel_cases_variant_remark_after", "codec_utf-8-sig", "codec_utf-8", "codec_utf-16", "codec_utf-16-le", "codec_utf-16-be", "codec_latin-1", "codec_cp1252",
             "eol_CR", "eol_CRLF", "channel_cases_indented_titles", "history_reads_compared", "rereads_after_mutation", "quiescent_state_checks", "unmutated_object_checks"]
 SOFT_DEADLINE = {"quick": 100, "thorough": 1500}
 LEVEL_TEXT = ("Exploration: (a) full product of channels x stored forms x line ends per generated text, (b) history checking with a "
@@ -54,12 +54,17 @@ READ_OPTS = [{}, {"engine": "normal"}, {"mnemonic_case": "preserve"}, {"null_pol
              {"null_policy": "all"}, {"read_policy": ()}, {"null_policy": "aggressive", "engine": "normal"}, {"dtypes": "auto", "mnemonic_case": "lower"}]
 
 
-def make_text(rep, seed):
+def make_text(rep, seed, variant=None):
     comp, unit, descr, _ = REPERTOIRES[rep]
     secs = lastext.std_header(3, extra_w=[["COMP", "", comp, "company"], ["FLD", "", "field %d" % seed, descr]], units=["M", unit, "U"],
                               params=[["BHT", unit, "35.5", descr], ["MUD", "", comp, "mud"]])
     secs.append({"kind": "O", "title": "~Other", "lines": [descr + " free text", comp]})
-    secs.append({"kind": "A", "title": "~ASCII", "rows": [["%.1f" % (100 + i), "%d.25" % (i + seed % 7), "-999.25" if i == 1 else "%d.5" % i] for i in range(4)]})
+    rows = [["%.1f" % (100 + i), "%d.25" % (i + seed % 7), "-999.25" if i == 1 else "%d.5" % i] for i in range(4)]
+    if variant in ("remark", "remark_after"):
+        rows[2].append("# remark")               # only the fast engine tolerates a trailing remark: every channel must take the same route
+    secs.append({"kind": "A", "title": "~ASCII", "rows": rows})
+    if variant in ("after", "remark_after"):
+        secs.append({"kind": "X", "title": "~Tools used", "items": [["AFT", unit, "1.5", descr]]})      # the data section is not the last one
     return lastext.render({"sections": secs}, {"sep": "  ", "lead": " "})
 
 
@@ -91,6 +96,11 @@ def grid(tier):
             for eol in EOLS:
                 k += 1
                 yield {"kind": "channels", "rep": rep, "codec": codec, "eol": eol, "seed": k}
+    for variant in ("after", "remark", "remark_after"):
+        for rep, codec in (("latin", "utf-8"), ("latin", "latin-1"), ("wide", "utf-16"), ("cp1252", "utf-8-sig")):
+            for eol in ("LF", "CRLF"):
+                k += 1
+                yield {"kind": "channels", "rep": rep, "codec": codec, "eol": eol, "seed": k, "variant": variant}
     for k in range(40 if tier == "quick" else 300):
         yield {"kind": "history", "seed": k, "length": 10 + k % 30}
 
@@ -103,6 +113,8 @@ def random_case(rng, tier):
     if rng.random() < 0.3:
         rep = rng.choice(list(REPERTOIRES))
         c = {"kind": "channels", "rep": rep, "codec": rng.choice(REPERTOIRES[rep][3]), "eol": rng.choice(list(EOLS)), "seed": rng.randrange(10 ** 6)}
+        if rng.random() < 0.3:
+            c["variant"] = rng.choice(["after", "remark", "remark_after"])
         if rng.random() < 0.3:
             c["straddle"] = rng.choice([512, 1000, 1024, 2048, 4000, 4096, 8000, 8192, 16384]) - rng.randint(0, 3)
         return c
@@ -119,7 +131,9 @@ def run_case(case, ctx):
 def run_channels(case, ctx):
     lasio = ctx.lasio
     rep, codec, eolname = case["rep"], case["codec"], case["eol"]
-    text = make_text(rep, case["seed"])
+    text = make_text(rep, case["seed"], case.get("variant"))
+    if case.get("variant"):
+        ctx.count("channel_cases_variant_" + case["variant"])
     if case["seed"] % 3 == 1:
         # section titles indented by an odd number of blanks (presentation only; byte and character offsets differ in UTF-16)
         ind = " " * (1 + 2 * (case["seed"] % 2))
